@@ -16,7 +16,7 @@ RULE = ("Hypothesis-generated simple loop-free graphs built as unions of planted
         "atlas on <= 5 (quick) / <= 6 nodes x limits {0,2,3} x 3 schedules. Oracle: label partition + greedy-maximal "
         "predicate against nx.enumerate_all_cliques. Non-trivial = graph contains two triangles sharing an edge or a "
         "clique of size >= 4; distinct = canonical JSON")
-ASSUMPTIONS = ["node ids are non-negative ints (labels embed the member list textually)"]
+ASSUMPTIONS = ["node ids are non-negative ints or tuples of such (labels embed the member list textually and are parsed back)"]
 BUDGET = {"quick": (16, 250), "thorough": (16, 8000)}
 LABEL = re.compile(r"^(\d+)-(\[.*\])-(\d+)$")
 
@@ -54,7 +54,9 @@ def graph_history(draw, tier):
     r = draw(st.one_of(st.fixed_dictionaries({"mode": st.just("seed"), "seed": st.integers(0, 2 ** 31)}),
                        st.fixed_dictionaries({"mode": st.just("script"), "ints": st.lists(st.integers(0, 40), max_size=60),
                                               "tail": st.integers(0, 99)})))
-    return {"n": n, "edges": [[(b, a) if f else (a, b)][0] for (a, b), f in zip(order, flip)], "labels": list(labels),
+    tuple_named = draw(st.integers(0, 5)) == 5
+    return {"n": n, "tuple_named": tuple_named,
+            "edges": [[(b, a) if f else (a, b)][0] for (a, b), f in zip(order, flip)], "labels": list(labels),
             "node_order": list(node_order) if node_order else None, "ops": ops, "rng": r}
 
 
@@ -149,6 +151,14 @@ def check(case):
         G.add_edge(lab[a], lab[b])
     for i in range(case["n"]):
         G.add_node(lab[i])
+    if case.get("tuple_named") and G.number_of_edges():
+        # vertex names are arbitrary hashables: add vertices named after the member tuples of existing cliques (as
+        # incidence / total-graph constructions do), attached to one of the members
+        for c in list(nx.enumerate_all_cliques(G)):
+            if 2 <= len(c) <= 3:
+                G.add_edge(tuple(c), c[0])
+                if G.number_of_nodes() > case["n"] + 3:
+                    break
     nt = False
     classes = set()
     r = case["rng"]
@@ -157,13 +167,13 @@ def check(case):
         nm = 0
         for step, (op, arg) in enumerate(case["ops"]):
             if op == "add":
-                non = [(u, v) for u, v in combinations(sorted(G.nodes()), 2) if not G.has_edge(u, v)]
+                non = [(u, v) for u, v in combinations(sorted(G.nodes(), key=repr), 2) if not G.has_edge(u, v)]
                 if non:
                     G.add_edge(*non[arg % len(non)])
                     classes.add("edge_added_between_calls")
                 continue
             if op == "remove":
-                es = sorted(map(tuple, map(sorted, G.edges())))
+                es = sorted((tuple(sorted(e, key=repr)) for e in G.edges()), key=repr)
                 if es:
                     G.remove_edge(*es[arg % len(es)])
                     classes.add("edge_removed_between_calls")
@@ -177,7 +187,9 @@ def check(case):
             nm += 1
         if nm >= 2:
             classes.add("repeated_cover")
-    if list(G.nodes()) != sorted(G.nodes()):
+    if case.get("tuple_named"):
+        classes.add("tuple_named_vertices")
+    elif list(G.nodes()) != sorted(G.nodes()):
         classes.add("unsorted_node_order")
     classes.add("rng_" + r["mode"])
     return {"nontrivial": nt, "classes": sorted(classes)}
